@@ -64,6 +64,22 @@ func genSubscribe() *leanFile {
 	} else {
 		l.def("tsLatestCmp", "Cmp", ".gt", "")
 	}
+	// EarliestOffsetAfterTimestamp: segment search inclusive of an equal base timestamp?
+	incl := false
+	{
+		f := load(commitlogGo)
+		if fd := f.fn("commitLog.EarliestOffsetAfterTimestamp"); fd != nil {
+			ast.Inspect(fd.Body, func(n ast.Node) bool {
+				if ce, ok := n.(*ast.CallExpr); ok && nows(f.src(ce.Fun)) == "findSegmentIndexByTimestamp" && len(ce.Args) == 3 && nows(f.src(ce.Args[2])) == "true" {
+					incl = true
+				}
+				return true
+			})
+		}
+		inclImpl := anyHas(condTexts(utilGo, "findSegmentIndexByTimestamp"), "inclusive && entry.Timestamp == timestamp")
+		incl = incl && inclImpl
+	}
+	l.def("tsEarliestInclusive", "Bool", fmt.Sprint(incl), "EarliestOffsetAfterTimestamp looks for the first segment whose base timestamp is >= (not >) the timestamp")
 	// getStopOffset: read-only partitions stop at the newest offset (forward only?)
 	sc := condTexts(partitionGo, "partition.getStopOffset")
 	switch {
